@@ -78,3 +78,21 @@ func VH_C14_ReplyCorrelation() {
 	nt := NewTransaction(TranChatMsg, cc.ID)
 	vAssert("request_flag_clear", nt.IsReply == 0)
 }
+
+// The same at concrete frame sizes around the buffer sizes a sender might use (4 KiB, 32 KiB) and at the limit.
+func VH_C14_OneWriteAtBoundarySizes() {
+	srv, _ := NewServer()
+	conn := &vRecConn{}
+	cc := &ClientConn{Connection: conn, Server: srv}
+	srv.ClientMgr.Add(cc)
+	lens := []int{0, 1, 4069, 4070, 4071, 32741, 32742, 32743, 65535}
+	data := vBytesN("data", lens[vChoice("data_len", 9)])
+	t := NewTransaction(TranChatMsg, cc.ID, NewField(FieldData, data))
+	ref := refTransaction(&t, [][]byte{refField(FieldData[0], FieldData[1], data)})
+	err := srv.sendTransaction(t)
+	vAssert("send_ok", err == nil)
+	vAssert("one_write_per_transaction_at_boundary", len(conn.writes) == 1)
+	if len(conn.writes) == 1 {
+		vAssertEqBytes("frame_bytes_at_boundary", conn.writes[0], ref)
+	}
+}
